@@ -396,8 +396,9 @@ inductive Act where
   /-- `static const range r = {lo, hi}; if (!src || !(len = mpt_fpoint_set(&o->f, src, &r))) {default}
       return len < 0 ? len : 0;` (`retLen`: `return len;`) -/
   | fpoint (field : Nat) (lo hi : Fl) (retLen : Bool)
-  /-- axis `intervals`: count or the keyword `log` (flag `bit` of member `flags`) -/
-  | intervals (field flags : Nat) (bit : Nat)
+  /-- axis `intervals`: count or the keyword `log` (flag `bit` of member `flags`); `clearNone`: the "no value"
+      result of the count conversion clears the flag too (as the count and `NULL` do) -/
+  | intervals (field flags : Nat) (bit : Nat) (clearNone : Bool)
   /-- graph `align`: number or up to four letters b/e/z -/
   | align (field : Nat)
   /-- graph `clip`: number or axis letters -/
@@ -573,7 +574,7 @@ def Act.touched : Act → List Nat
   | .conv _ f => [f] | .string f => [f]
   | .colour f r => f :: r.toList | .lattr f _ _ _ r => f :: r.toList
   | .axisPos f => [f] | .linePos f => [f] | .fpoint f _ _ _ => [f, f + 1]
-  | .intervals f g _ => [f, g] | .align f => [f] | .clip f => [f]
+  | .intervals f g _ _ => [f, g] | .align f => [f] | .clip f => [f]
 
 /-- run one handler -/
 def Act.run (k : Kind) (tab : List NamedColor) (a : Act) (o : Obj) (src : Src) (tok : Nat) : Out :=
@@ -646,12 +647,14 @@ def Act.run (k : Kind) (tab : List NamedColor) (a : Act) (o : Obj) (src : Src) (
       | .val (x, y) n => ⟨(o.put f (.flt x)).put (f + 1) (.flt y), .ok (if retLen then n else 0)⟩
       | .err e => ⟨o, .err e⟩
       | .unsup => ⟨o, .unsup⟩
-  | .intervals f g bit =>
+  | .intervals f g bit clearNone =>
     match src with
     | .null => ⟨(o.put f (k.dflt f)).put g (.int (clearBit (o.get g).toInt bit)), .ok 0⟩
     | .text v =>
       match convText 'y' v with
-      | .none => ⟨(o.put f (k.dflt f)).put g (.int (clearBit (o.get g).toInt bit)), .ok 0⟩
+      | .none =>
+        if clearNone then ⟨(o.put f (k.dflt f)).put g (.int (clearBit (o.get g).toInt bit)), .ok 0⟩
+        else ⟨o.put f (k.dflt f), .ok 0⟩
       | .val x _ => ⟨(o.put f x).put g (.int (clearBit (o.get g).toInt bit)), .ok 0⟩
       | .unsup => ⟨o, .unsup⟩
       | .err e =>
